@@ -313,10 +313,8 @@ let handle_smtp (kind : string) (ins : string list) (outs : string list) : bool 
          message as handed to it, redirected to one mailbox; it is consulted only where the Lua handler did not answer *)
       let combine (first : (str * hook_ans) list) (second : (str * hook_ans) list) : (str * hook_ans) list =
         let keys = List.sort_uniq compare (List.map fst first @ List.map fst second) in
-        let listener (t : (str * hook_ans) list) (a : str) : hook_ans option =
-          match List.assoc_opt a t with Some NoAns | None -> None | Some h -> Some h in
-        List.map (fun a ->
-          (a, match broker_emit [listener first; listener second] a with Some h -> h | None -> NoAns)) keys in
+        (* the extracted Hooks.table_listener / broker_emit / session_answer: what Proofs/HooksCompose.v is about *)
+        List.map (fun a -> (a, session_answer (broker_emit [table_listener first; table_listener second] a))) keys in
       let second_msg : (str * overrides) list =
         if msl2 = "-" then [] else
         List.map (fun e ->
@@ -335,10 +333,8 @@ let handle_smtp (kind : string) (ins : string list) (outs : string list) : bool 
          (model: Hooks.emit) - the first listener that answers; NoAns = nil result *)
       let combine (first : (str * hook_ans) list) (second : (str * hook_ans) list) : (str * hook_ans) list =
         let keys = List.sort_uniq compare (List.map fst first @ List.map fst second) in
-        let listener (t : (str * hook_ans) list) (a : str) : hook_ans option =
-          match List.assoc_opt a t with Some NoAns | None -> None | Some h -> Some h in
-        List.map (fun a ->
-          (a, match broker_emit [listener first; listener second] a with Some h -> h | None -> NoAns)) keys in
+        (* the extracted Hooks.table_listener / broker_emit / session_answer: what Proofs/HooksCompose.v is about *)
+        List.map (fun a -> (a, session_answer (broker_emit [table_listener first; table_listener second] a))) keys in
       go naming maxr maxb da acc rej ds sto dis rejo (String.split_on_char '+' streams)
         (combine (parse_smtp_rules ml) (parse_smtp_rules ml2), combine (parse_smtp_rules rl) (parse_smtp_rules rl2),
          parse_msg_rules msl)
